@@ -1021,6 +1021,11 @@ func readTcbInfoTcbStatus(tcbInfo pcs.TcbInfo, tdQuoteBody *pb.TDQuoteBody, pckC
 			return pcs.TcbLevel{}, err
 		}
 		logger.V(2).Info("Tdx Module TCB Status found: ", matchingTdxModuleTcbLevel.TcbStatus)
+		// The platform TCB level has to be UpToDate as well: the TDX module's level
+		// decides only when the platform's level passes.
+		if matchingTcbLevel.TcbStatus != pcs.TcbComponentStatusUpToDate {
+			return matchingTcbLevel, nil
+		}
 		return *matchingTdxModuleTcbLevel, nil
 	}
 
